@@ -142,13 +142,13 @@ FAMILIES = {
 PROPS = {
     "C01": dict(families=["FUNDS", "XFUND"], groups=["ack", "bal"], level="model_checking",
                 rule="a step is non-trivial for C01 when it is a packet reception; distinct = distinct (abstract pre-state, abstract input)"),
-    "C02": dict(families=["FUNDS", "FEESBIG", "XFUND"], groups=["bal", "supply"], level="model_checking",
+    "C02": dict(families=["FUNDS", "FEESBIG", "XFUND", "BIGSEQ"], groups=["bal", "supply"], level="model_checking",
                 rule="non-trivial = a successful orbiter transfer (success acknowledgement); distinct = distinct (abstract pre-state, abstract input)"),
     "C11": dict(families=["DUST", "FUNDS", "XFUND"], groups=["ack", "bal", "stats", "xfers"], level="model_checking",
                 rule="non-trivial = an orbiter packet received while the orbiter account holds coins, with the paired control run on the emptied account executed; distinct = distinct (pre-state, input)"),
     "C12": dict(families=["FUNDS", "STATS", "ORDER", "DISCARD"], groups=["stats"], level="model_checking",
                 rule="non-trivial = a successful orbiter transfer (statistics must change by exactly that transfer); all other steps are checked for 'unchanged'; distinct = distinct (pre-state, input)"),
-    "C03": dict(families=["FAULT", "FUNDS"], groups=["ack", "fired", "xfers", "events"], level="fault_enumeration", exhaustive=True,
+    "C03": dict(families=["FAULT", "FUNDS", "BIGSEQ"], groups=["ack", "fired", "xfers", "events"], level="fault_enumeration", exhaustive=True,
                 rule="FAULT: every (payload shape x armed fault set x clean/dusty state) is one execution with fault wrappers around the real dependencies; FUNDS: naturally occurring failures; non-trivial = a reception in which an armed fault actually fired or the transfer was refused; distinct = distinct (pre-state, input incl. fault set)"),
     "C06": dict(families=["ORDER"], groups=["ack", "actions", "req", "xfers", "events"], level="model_checking",
                 rule="non-trivial = a packet whose payload carries actions (executed with recording decorators around the fee controller and the swap test controller) or repeats an action id; distinct = distinct (pre-state, input)"),
@@ -168,7 +168,7 @@ PROPS = {
                 rule="one evaluation = one complete query walk (all pages) or one direct lookup against the ledger observed in the same step; non-trivial = every query step; distinct = distinct (ledger, query)"),
     "C19": dict(families=["DET"], groups=[], level="exploration",
                 rule="the same generated histories (random FUNDS and PAUSE histories, the parse-mutation grid, the request grid, the genesis-document grid, the pass-through grid) replayed in R independent OS processes (R=2 quick, 4 thorough; different GOMAXPROCS/GC settings, Go randomises map iteration per process); per step a digest of acknowledgement bytes, ordered events, exported orbiter state, full bank export and all-store hash; non-trivial = a step with peer digests; distinct = distinct (pre-state, input); error-branch coverage of the specification by the replayed steps is reported"),
-    "C04": dict(families=["FEES", "FEESBIG", "BIGSEQ"], groups=["ack", "bal"], level="model_checking", exhaustive=True,
+    "C04": dict(symbolic=[("FeeMath", "Lemmas")], families=["FEES", "FEESBIG", "BIGSEQ"], groups=["ack", "bal"], level="model_checking", exhaustive=True,
                 rule="every grid point (amount x fee-entry list) is one packet through the real application; non-trivial = the payload carries a fee action that parses; distinct = distinct abstract input"),
     "C05": dict(families=["REQ"], groups=["ack", "req"], level="model_checking", exhaustive=True,
                 rule="every grid point (protocol id x attribute type x attribute values x pre-action) is one packet, executed once with recording wrappers around the real bridge servers and once through the simapp wiring; non-trivial = a successful transfer (request compared) or a mismatched/unrouted payload (must be refused); distinct = distinct abstract input x wiring"),
@@ -407,6 +407,21 @@ def do_replay(path, quiet=False):
         shutil.rmtree(wd, ignore_errors=True)
 
 
+def symbolic_lemmas(specdir, module, inv, wd):
+    """Unbounded arithmetic lemmas of the specification discharged by Apalache (SMT, no bound on the
+    amount). A refuted lemma is a SPECIFICATION error (exit 2): verdicts come from the code only."""
+    out_dir = os.path.join(wd, "apalache-" + module)
+    cmd = ["apalache-mc", "check", "--init=Init", "--next=Next", "--inv=" + inv, "--length=0", "--out-dir=" + out_dir,
+           os.path.join(specdir, module + ".tla")]
+    rc, out, dt = run(cmd, 900, what="apalache " + module, cwd=wd)
+    shutil.rmtree(out_dir, ignore_errors=True)
+    if rc != 0 or "The outcome is: NoError" not in out:
+        raise Machinery("Apalache did not discharge %s!%s (rc=%d):\n%s" % (module, inv, rc, out[-1500:]))
+    n = len(set(re.findall(r"state invariant (\d+) holds", out)))
+    log("Apalache discharged %s!%s (%d conjuncts, unbounded integers) in %.0fs" % (module, inv, n, dt))
+    return dict(tool="apalache-mc 0.58.0", module=module, invariant=inv, conjuncts=n, bound="none (mathematical integers)", wall_s=round(dt, 1))
+
+
 def check(prop, tier):
     t0 = time.time()
     seed = int(os.environ.get("VERIF_SEED", "1"))
@@ -438,6 +453,7 @@ def check(prop, tier):
                 k += 1
         if behs:
             samples.append(dict(history=[in_summary(s) for s in behs[len(behs) // 2]["steps"]]))
+    symbolic = [symbolic_lemmas(specdir, m, inv, wd) for m, inv in P.get("symbolic", [])]
     nontriv = len(report["nontrivial_keys"])
     if nontriv < 2:
         raise Machinery("vacuous run: the antecedent of %s was true on %d distinct observed steps" % (prop, nontriv))
@@ -450,6 +466,7 @@ def check(prop, tier):
             model_checking=report["mc"], families=report["families"],
             spec_branches_reached=sorted(report.get("branches", [])),
             spec_divergences=report.get("divergences", {}), known_findings=report.get("known_findings", {}),
+            symbolic_lemmas=symbolic,
             exhaustive=bool(P.get("exhaustive", False))),
         assumptions=ASSUMPTIONS, wall_s=round(time.time() - t0, 1), violations=len(all_viol))
     os.makedirs(os.path.dirname(evidence_path), exist_ok=True)
